@@ -289,6 +289,9 @@ def step (st : St) (toks : List String) : St × String :=
     | _, _ => (st, "bad-op")
   | ["cronrun"] => (st, "fired-before-stop=1")   -- the real cron fired within 5 s (runtime observation)
   | ["loadconfig"] => (st, "ok")     -- the real loader accepted the sample configuration (C10's subject)
+  | ["cancelDelay", q] => match q.toNat? with
+    | some q => apply st (.cancelDelay q)
+    | none => (st, "bad-op")
   | ["log"] => (st, showLog st.s.log)
   | ["allStopped"] => (st, showBool (allStopped st.s))
   | _ => (st, "bad-op")
